@@ -8,7 +8,11 @@ program: {"id": int, "tempo": {"t1": [num, den], ...}, "tasks": {name: {"kind": 
           "horizon": units, "strategy": {"kind": "random"|"pct"|"choice"|"fifo", "seed": n, "choices": [...]}}
 op   : ["sched", clock, task, delta] | ["sched_abs", clock, task, time] | ["clear", clock] | ["sleep", d]
        | ["tempo", clock, num, den] | ["stop", clock]                    (all times in units of 1/1024 s / beat)
-step : {"do": [op, ...], "res": ["ret", delta] | ["none"] | ["raise"] | ["stop"] | ["other"]}
+       | ["cset", cv] | ["signal", cv] | ["unhang", cv] | ["fset", cv]   (program["conds"]: {cv: "cond"|"fv"})
+step : {"do": [op, ...], "res": ["ret", delta] | ["none"] | ["raise"] | ["stop"] | ["other"] | ["wait", cv]}
+A "cond" is a Condition whose test is a callable reading a flag and then offering a preemption point (the window
+between evaluating the test and registering the routine); ["cset", cv] makes the flag true; an "fv" is a FlowVar,
+["fset", cv] binds it.  ["wait", cv] (routine tasks) = yield from cond.wait() / flowvar.value.
 Output: {"traces": [{"id", "ev": [...], "clocks": {...}, "threads": {...}, "branch": [...]}], "remaining": [ids]}
 """
 import json
@@ -139,6 +143,20 @@ def run_program(S, prog, main, clk, stm, fn):
             if k == 'sleep':
                 cosched._FakeTime.sleep(op[1] / U)
                 return
+            if k == 'cset':
+                flags[op[1]] = True
+                S.emit('cset', cv=op[1])
+                return
+            if k in ('signal', 'unhang', 'fset'):
+                S.emit('call', api=k, cv=op[1], inner=inner)
+                if k == 'signal':
+                    (conds[op[1]].condition if isinstance(conds[op[1]], stm.FlowVar) else conds[op[1]]).signal()
+                elif k == 'unhang':
+                    (conds[op[1]].condition if isinstance(conds[op[1]], stm.FlowVar) else conds[op[1]]).unhang()
+                else:
+                    conds[op[1]].value = 1
+                S.emit('ret', api=k, cv=op[1])
+                return
             c = clocks[op[1]] if k != 'osc' else None
             try:
                 if k == 'sched' and op[3] == 'inf':
@@ -234,6 +252,13 @@ def run_program(S, prog, main, clk, stm, fn):
                     k = begin(name, clock)
                     step = script[k] if k < len(script) else {'do': [], 'res': ['stop']}
                     do_ops(step.get('do', []), True)
+                    if step['res'][0] == 'wait':
+                        c = conds[step['res'][1]]
+                        gen = c.value if isinstance(c, stm.FlowVar) else c.wait()
+                        v = next(gen)        # evaluates the test and registers the routine, as `yield from` would
+                        S.emit('task_end', task=name, k=k, res='park' if v == 'hang' else 'pass', val=0, cv=step['res'][1])
+                        me, clock = yield v
+                        continue
                     S.emit('task_end', task=name, k=k, res=step['res'][0],
                            val=step['res'][1] * K if len(step['res']) > 1 else 0)
                     r = step['res']
@@ -242,6 +267,19 @@ def run_program(S, prog, main, clk, stm, fn):
                     me, clock = yield result(name, r)
             return stm.Routine(g)
 
+        conds = {}
+        flags = {}
+        for cv, kind in prog.get('conds', {}).items():
+            if kind == 'fv':
+                conds[cv] = stm.FlowVar()
+            else:
+                flags[cv] = False
+
+                def test(cv=cv):
+                    v = flags[cv]
+                    S.point()       # between evaluating the test and acting on it
+                    return v
+                conds[cv] = stm.Condition(test)
         for name, t in prog['tasks'].items():
             tasks[name] = (mk_rt if t.get('kind') == 'rt' else mk_fn)(name, t['script'])
 
@@ -317,7 +355,7 @@ def convert(log, reln):
 
 
 KEYS = dict(th='', op='', now=0, api='', clock='', task='', arg=0, arg2=1, inner=False, lock='', cond='',
-            deadline=-1, notified=False, woken=[], k=0, lt=0, lb=0, res='', val=0, child='', label='',
+            deadline=-1, notified=False, woken=[], k=0, lt=0, lb=0, res='', val=0, child='', label='', cv='',
             alive=[], dead=[], users_done=True, num=1, den=1, why='')
 
 
